@@ -415,6 +415,19 @@ def run_history(ctx, items, plan, mode, case):
                 fail("registration-raises", {"type": type(err).__name__, "msg": str(err)[:200], "batch": new})
             registered |= set(batch)
             verify(conf, "batch%d" % bi, palettes)
+        if mode == "global" and plan.get("copy_probe"):
+            # somebody works on a deep copy of the global configuration (tries out more colours): the copy is a
+            # configuration of its own, the global one and its palettes are not concerned
+            import copy
+            try:
+                trial = copy.deepcopy(conf)
+                trial.add_new_items({"VFTRIAL.X": "GREEN:bold", "VFTRIAL.Y": "VFTRIAL.X:/RED"}, "trial")
+            except Exception as err:
+                fail("registration-raises", {"type": type(err).__name__, "msg": str(err)[:200], "on": "deep copy"})
+            ctx.count("deep_copies_of_the_global_configuration_extended")
+            if akcolor.get_global_colors_config() is not conf:
+                fail("copy-of-the-global-configuration-became-the-global-one", {})
+            verify(conf, "after a deep copy was extended", palettes)
         if mode == "global" and plan.get("swap") is not None:
             # another global configuration is installed: the synced palettes of this history register
             # their defaults in it (in the order they were created) and must reflect the result
@@ -493,7 +506,7 @@ def make_plan(rng, items, mode):
         swap = [i for i in pool if items[i]['initial_only'] or rng.random() < 0.4]
     return {"init": init, "batches": batches, "early_palette": rng.random() < 0.5, "swap": swap,
             "plain_global_palette": rng.random() < 0.3, "stable_no_color": rng.random() < 0.7,
-            "same_class_names": rng.random() < 0.5}
+            "same_class_names": rng.random() < 0.5, "copy_probe": rng.random() < 0.4}
 
 
 def long_chain_case(ctx, n=1500):
